@@ -140,13 +140,26 @@ Example C10_nested_dictionary_example : surface_okb (fun _ => None) ex_nested ex
   map xcmd_den ex_nested = [ (Some (rx "B"), rx "Cmd", [ (rx "P", PE (PList [PE (PDict [(rx "a b", PE (PStr (rx "xy")) 0%N); (rx "k", PE (PInt 1%Z) 0%N)]) 0%N; PE (PStr (rx "z")) 0%N]) 0%N) ]) ].
 Proof. vm_compute. repeat split; reflexivity. Qed.
 
-(* NOT proved: the same for the few forms outside the surface family -- unquoted text with colons as the value of a tuple pair or
-   inside a list, and adjacent tokens that only PLY's longest-match rule separates (`1.5.2x`).  These are covered by the
-   correspondence only: random programs x random layouts, single-token corruptions, token soups, mixed lists, unquoted multi-word
-   text, all compared with the real parser's result including line numbers; the evidence counts how many of the accepted
-   renderings are instances of C10_layout_irrelevance (Coq re-assembles each text from its decomposition and evaluates
-   surface_okb) and says why the others are not.  Recorded limitation of the code itself (modelled faithfully): an unquoted
-   multi-word value loses its blanks and re-prints numerals ("This is a string." -> "Thisisastring."). *)
+(* The surface family now spans every production of the grammar (the TRUE / FALSE tokens are never produced: the ID rule wins):
+   colon text may also be the value of a tuple pair (PVColon).   B = Cmd(M = [when: 12 h:30 h, "p": C:\x])  *)
+Definition ex_pvcolon : list xcmd :=
+  [ {| xc_result := Some (rx "B"); xc_name := rx "Cmd"; xc_trail := false;
+       xc_args := [ (rx "M", XADict (KW [WW (rx "when")], PVColon [WI (rx "12"); WW (rx "h")] [[WI (rx "30"); WW (rx "h")]])
+                                    [(KQ (rx """p"""), PVColon [WW (rx "C")] [[WP (rx "\x")]])] false) ] |} ].
+Definition ex_pvcolon_gaps : list text :=
+  let sp := [32%N] in [ []; sp; sp; []; []; sp; sp; []; []; sp; sp; []; []; sp; []; sp; []; sp; []; []; []; [] ].
+Example C10_colon_in_pair_example : surface_okb (fun _ => None) ex_pvcolon ex_pvcolon_gaps [] = true /\
+  lay (combine ex_pvcolon_gaps (tkx_program ex_pvcolon)) [] = rx "B = Cmd(M = [when: 12 h:30 h, ""p"": C:\x])" /\
+  map xcmd_den ex_pvcolon = [ (Some (rx "B"), rx "Cmd", [ (rx "M", PE (PDict [(rx "p", PE (PStr (rx "C:\x")) 0%N); (rx "when", PE (PStr (rx "12h:30h")) 0%N)]) 0%N) ]) ].
+Proof. vm_compute. repeat split; reflexivity. Qed.
+
+(* NOT proved: renderings in which two adjacent tokens are separated only by PLY's longest-match rule (`1.5.2x`: the boundary
+   hypothesis lay_ok is sufficient, not necessary), and malformed input.  These are covered by the correspondence only: random
+   programs x random layouts, single-token corruptions, token soups, mixed lists, unquoted multi-word text, all compared with the
+   real parser's result including line numbers; the evidence counts how many of the accepted renderings are instances of
+   C10_layout_irrelevance (Coq re-assembles each text from its decomposition and evaluates surface_okb) and says why the others
+   are not.  Recorded limitation of the code itself (modelled faithfully): an unquoted multi-word value loses its blanks and
+   re-prints numerals ("This is a string." -> "Thisisastring."). *)
 Print Assumptions C10_lexer_rules.
 Print Assumptions C10_grammar.
 Print Assumptions C10_tokens_are_pieces_of_the_source.
